@@ -16,10 +16,10 @@ var propEntries = map[string][]string{
 	"C01": {"(*Mast).Get", "(*Mast).Insert", "(*Mast).Delete", "(*Mast).Iter", "(*Mast).Size", "(*Mast).Height",
 		"(*Mast).Clone", "(*Mast).MakeRoot", "(*Root).LoadMast", "(*Mast).IsDirty", "NewInMemory", "(*Mast).BranchFactor"},
 	"C06": {"(*Mast).DiffIter", "(*Mast).StartDiff", "(*DiffCursor).NextEntry"},
-	"C07": {"(*Mast).DiffLinks"},
+	"C07": {"(*Mast).DiffLinks", "(*Mast).MakeRoot"}, // node diffs are taken between published versions: what MakeRoot leaves as root is what DiffLinks announces
 	"C10": {"(*Mast).Cursor", "(*Cursor).Min", "(*Cursor).Max", "(*Cursor).Get", "(*Cursor).Forward", "(*Cursor).Backward",
 		"(*Cursor).Ceil", "(*Cursor).String", "(*Mast).SeekIter"},
-	"C15": {"(*Mast).DiffIter", "(*Mast).DiffLinks", "(*Mast).StartDiff", "(*DiffCursor).NextEntry"},
+	"C15": {"(*Mast).DiffIter", "(*Mast).DiffLinks", "(*Mast).StartDiff", "(*DiffCursor).NextEntry", "(*Mast).MakeRoot"}, // the cost bound is between persisted versions: what MakeRoot leaves as root is what the diff compares by name
 	"C03": {"(*Mast).MakeRoot"},
 	"C05": {"(*Mast).MakeRoot", "(*Root).LoadMast", "NewRoot"},
 	"C19": {"(*Root).LoadMast"},
